@@ -478,6 +478,54 @@ fn run_behaviour(sh: &Shared, lane: &Lane, b: &Value, idx: usize) -> Result<(usi
     Ok((seps, seps_ok))
 }
 
+/// The expect machine also fronts HTTP listeners (expect_proxy = true): the same behaviours with an
+/// HTTP request as payload. The request must reach the backend from its first byte.
+fn http_expect_behaviour(front: &SocketAddr, rec: &kit::Recorder, hdr_bytes: &[u8], b: &Value) -> Result<(), (String, Value)> {
+    let hlen = hdr_bytes.len();
+    let mut req = b"GET /c18 HTTP/1.1\r\nHost: localhost\r\nX-Pad: ".to_vec();
+    while (req.len() + 4) % 3 != 0 {
+        req.push(b'p');
+    }
+    req.extend_from_slice(b"\r\n\r\n");
+    let unit = req.len() / 3;
+    let mut stream = hdr_bytes.to_vec();
+    stream.extend_from_slice(&req);
+    let off = |pos: usize| -> usize { if pos <= hlen { pos } else { hlen + (pos - hlen) * unit } };
+    let n0 = rec.count();
+    let mut c = TcpStream::connect(front).map_err(|e| ("connect".to_string(), json!(e.to_string())))?;
+    let _ = c.set_nodelay(true);
+    let local = c.local_addr().unwrap();
+    let mut pos = 0usize;
+    let segs: Vec<usize> = b["segs"].as_array().unwrap().iter().map(|x| x.as_u64().unwrap() as usize).collect();
+    for s in &segs {
+        let (a, e) = (off(pos), off(pos + s));
+        pos += s;
+        if c.write_all(&stream[a..e]).is_err() {
+            break;
+        }
+        kit::wait_drained(front, &local, Duration::from_millis(60));
+        std::thread::sleep(Duration::from_micros(300));
+    }
+    let okk = rec.wait(Duration::from_secs(3), |s| s.conns.len() > n0 && s.conns[n0..].iter().any(|c| c.bytes.ends_with(b"\r\n\r\n")));
+    // what the client got back, if anything (a 400 when the request line was damaged)
+    let _ = c.set_read_timeout(Some(Duration::from_millis(if okk { 1 } else { 300 })));
+    let mut ans = [0u8; 64];
+    let n = c.read(&mut ans).unwrap_or(0);
+    let got = rec.snapshot(n0);
+    let head: Vec<u8> = got.iter().find(|x| !x.0.is_empty()).map(|x| x.0.clone()).unwrap_or_default();
+    kit::set_linger0(kit::fd_of(&c));
+    drop(c);
+    rec.wait(Duration::from_secs(2), |s| s.conns[n0..].iter().all(|c| c.eof));
+    let good = okk && head.starts_with(b"GET /c18 HTTP/1.1\r\n") && String::from_utf8_lossy(&head).to_lowercase().contains("host: localhost");
+    if good {
+        Ok(())
+    } else {
+        Err(("http-request-damaged-by-header-reader".into(),
+             json!({"hdr":b["hdr"],"segs":segs,"hlen":hlen,"backend_head":String::from_utf8_lossy(&head[..head.len().min(80)]),
+                    "client_got":String::from_utf8_lossy(&ans[..n])})))
+    }
+}
+
 fn main() {
     quiet_panics();
     let seed: u64 = arg("--seed", "1").parse().unwrap_or(1);
@@ -554,6 +602,7 @@ fn main() {
     chosen.sort_by_key(|&i| (!(behs[i]["slow"] == true), i));
 
     let mut executed = 0usize;
+    let mut http_executed = 0usize;
     let mut unix_closed = 0usize;
     let mut seps = 0usize;
     let mut seps_ok = 0usize;
@@ -591,6 +640,29 @@ fn main() {
                 }
             }
             lanes.push(Lane { clusters });
+        }
+        // HTTP listener with expect_proxy for the http-expect leg
+        let mut http_leg: Option<(SocketAddr, kit::Recorder)> = None;
+        if setup_err.is_none() {
+            use sozu_command_lib::config::ListenerBuilder;
+            use sozu_command_lib::proto::command::{ActivateListener, ListenerType};
+            let tmo = Duration::from_secs(5);
+            let front = kit::free_addr_fam(false);
+            let back = kit::free_addr_fam(false);
+            let mut lb = ListenerBuilder::new_http(front.into());
+            lb.with_expect_proxy(true);
+            let okk = match lb.to_http(None) {
+                Ok(l) => vh::worker::ok(&w.request(RequestType::AddHttpListener(l), tmo))
+                    && vh::worker::ok(&w.request(RequestType::ActivateListener(ActivateListener { address: front.into(), proxy: ListenerType::Http.into(), from_scm: false }), tmo))
+                    && vh::worker::ok(&w.request(RequestType::AddCluster(Worker::default_cluster("c18-http")), tmo))
+                    && vh::worker::ok(&w.request(RequestType::AddHttpFrontend(Worker::http_frontend("c18-http", front, "localhost", "/")), tmo))
+                    && vh::worker::ok(&w.request(RequestType::AddBackend(Worker::backend("c18-http", "c18-http-b", back)), tmo)),
+                Err(_) => false,
+            };
+            match (okk, kit::Recorder::start(back)) {
+                (true, Ok(r)) => http_leg = Some((front, r)),
+                _ => setup_err = Some("http expect_proxy listener setup failed".into()),
+            }
         }
         if setup_err.is_none() {
             let sh = Arc::new(Shared { worker: Mutex::new(w), codec: codec_map, templates, front_timeout, seed, dead: AtomicBool::new(false) });
@@ -655,6 +727,38 @@ fn main() {
                     }
                 }
             }
+            // http-expect leg (sequential, a few dozen sessions)
+            if let Some((front, rec)) = http_leg.as_ref() {
+                if !sh.dead.load(Ordering::SeqCst) {
+                    let mut rng2 = Rng(seed ^ 0x4854_5450);
+                    let mut nviol = 0;
+                    for (i, b) in behs.iter().enumerate() {
+                        let h = &b["hdr"];
+                        let hl = b["hlen"].as_u64().unwrap_or(999);
+                        if !(b["mode"] == "expect" && h["kind"] == "ok" && h["cmd"] == "PROXY" && b["pay"] == 3 && hl <= 232
+                            && (h["fam"] == "INET" || h["fam"] == "INET6")) {
+                            continue;
+                        }
+                        let segs = b["segs"].as_array().unwrap();
+                        let mandatory = segs.len() == 1 || (segs.len() == 2 && segs[0].as_u64() == Some(hl));
+                        if !mandatory && rng2.below(40) != 0 {
+                            continue;
+                        }
+                        let concs = &sh.codec[&class_key(h)];
+                        let hb = &concs[rng2.below(concs.len() as u64) as usize];
+                        http_executed += 1;
+                        if let Err((class, detail)) = http_expect_behaviour(front, rec, hb, b) {
+                            nviol += 1;
+                            if nviol <= 3 {
+                                viol.push(json!({"kind":"violation","class":format!("machine:{class}"),"detail":detail,"behaviour":behs[i]}));
+                            }
+                            if nviol >= 8 {
+                                break;
+                            }
+                        }
+                    }
+                }
+            }
             // final health check of the worker
             if let Some((k, m)) = worker_state(&sh) {
                 if !viol.iter().any(|v| v["class"].as_str().map(|c| c.contains(&k)).unwrap_or(false)) {
@@ -668,7 +772,7 @@ fn main() {
     }
     emit(&json!({"kind":"summary","codec_classes":classes,"codec_checks":codec_checks,"codec_s":codec_s,
                  "behaviours_in":groups.values().map(|v| v.len()).sum::<usize>(),"groups":groups.len(),
-                 "config_modes":cfg_modes,"executed":executed,"timeout_class_total":n_slow_total,"unix_closed":unix_closed,
+                 "config_modes":cfg_modes,"executed":executed,"http_expect_executed":http_executed,"timeout_class_total":n_slow_total,"unix_closed":unix_closed,
                  "separations":seps,"separations_confirmed":seps_ok,"ipv6":v6,"probe":format!("{probe:?}"),
                  "violations":viol.len(),"samples":samples,"setup_error":setup_err,
                  "wall_s":t0.elapsed().as_secs_f64()}));
